@@ -80,7 +80,10 @@ def configs(tier):
                     if key in seen:
                         continue
                     seen.add(key)
-                    add(key, "flip", m=m, n=n, ku=ku, kv=kv, ub=ub)
+                    ndec3 = (ku if m == 3 else 0) if ub else (kv if n == 3 else 0)  # deciding vectors of length 3: 9 paths each
+                    if q and ndec3 == 3 and (m, n) != (3, 3):
+                        continue  # 729 paths each: quick keeps the two 3x3 ones
+                    add(key, "flip", m=m, n=n, ku=ku, kv=kv, ub=ub, cost=9**ndec3)
     # the whole dispatcher, default method, sign resolution on U or on V
     for m in dims:
         for n in dims:
@@ -90,9 +93,56 @@ def configs(tier):
                     ndec3 = (min(ke, m) if m == 3 else 0) if ub else (min(ke, n) if n == 3 else 0)  # deciding vectors of length 3: ~9 paths each
                     if q and (ndec3 > 2 or (ndec3 == 2 and k not in (None, 2))):
                         continue
-                    add(f"interface/truncated_svd/{m}x{n}/k{k}/ub{ub}", "interface", m=m, n=n, k=k, ub=ub, mode="fork")
+                    add(f"interface/truncated_svd/{m}x{n}/k{k}/ub{ub}", "interface", m=m, n=n, k=k, ub=ub, mode="fork", cost=9**ndec3 + 5)
+    # symeig_svd through svd_interface against the eigh contract (stub: ascending eigenvalues, Givens-orthonormal eigenvectors);
+    # free M; 'full' = precondition "no returned eigenvalue was clipped at eps", 'any' = no precondition
+    for m in dims:
+        for n in dims:
+            for k in [None] + list(range(1, max(m, n) + 2)):
+                for rank in ("full", "any"):
+                    flips = ["none"] + (["u", "v"] if max(m, n) <= 2 and (not q or k in (None, 1)) else [])
+                    for flip in flips:
+                        add(f"symeig/direct/{m}x{n}/k{k}/{rank}/flip_{flip}", "symeig_direct", m=m, n=n, k=k, rank=rank, flip=flip)
+                # input-from-output generation (derived factor, product, leading singular values); 2x3 / 3x2 / 3x3 left out:
+                # the rational identities over a 3x3 Givens frame come back unknown
+                if max(m, n) <= 2 or min(m, n) == 1:
+                    for rank in ("full", "deficient"):
+                        add(f"symeig/generated/{m}x{n}/k{k}/{rank}", "symeig_gen", m=m, n=n, k=k, rank=rank, cost=30 if min(m, n) > 1 else 1)
+    # non_negative option through svd_interface (default method, sign resolution on): NNDSVDa (True / "nndsvda") and NNDSVD
+    nn_shapes = [(1, 1), (1, 2), (2, 1), (2, 2)] + ([] if q else [(2, 3), (3, 2)])
+    for m, n in nn_shapes:
+        for k in [None] + list(range(1, max(m, n) + 1)):
+            for variant in ("True", "nndsvda", "nndsvd"):
+                if variant == "nndsvda" and (m, n, k) != (2, 2, None):
+                    continue  # same code path as True: one config shows the string is accepted
+                for inp in ("signed", "mean_nonneg"):
+                    add(f"nn/{variant}/{m}x{n}/k{k}/{inp}", "nn", m=m, n=n, k=k, variant=variant, inp=inp, mode="merge", vacuity=False, cost=50 if min(m, n) > 1 else 2)
+    # dispatcher: method names, unknown name, callable method (+ kwargs forwarding), flip_sign=False
+    add("dispatch/names", "dispatch_names")
+    for m, n, ku, kv in [(2, 2, 2, 2), (2, 3, 2, 2), (3, 2, 2, 2), (2, 2, 1, 1), (1, 2, 1, 2), (2, 1, 2, 1)]:
+        for ub in (1, 0):
+            add(f"dispatch/callable/U{m}x{ku}/V{kv}x{n}/ub{ub}", "dispatch_callable", m=m, n=n, ku=ku, kv=kv, ub=ub, cost=40)
+    # one imputation sweep (mask given, n_eigenvecs given): what the second factorisation is applied to
+    for m, n in [(2, 2), (2, 3), (3, 2)] + ([] if q else [(3, 3)]):
+        for k in [None] + list(range(1, max(m, n) + 1)):
+            for it in (0, 1):
+                for pat in ("one_missing", "none_missing", "row_missing"):
+                    if q and pat != "one_missing" and (m, n) != (2, 2):
+                        continue
+                    add(f"mask/{m}x{n}/k{k}/it{it}/{pat}", "mask", m=m, n=n, k=k, it=it, pat=pat)
+    # randomized_svd: shape / clamping / transposition logic only (RNG, qr and svd stubs)
+    for m in dims:
+        for n in dims:
+            for k in [None] + list(range(1, max(m, n) + 2)):
+                for os_ in (0, 1, 5):
+                    for it in (0, 1) if not q else (1,):
+                        if q and os_ == 1 and max(m, n) < 3:
+                            continue
+                        add(f"randomized/{m}x{n}/k{k}/os{os_}/it{it}", "randomized", m=m, n=n, k=k, os=os_, it=it)
     return out
 
+
+EPS = 2.0**-52
 
 # ------------------------------------------------------------------------------------ oracle helpers
 def expected_shapes(m, n, k):
@@ -153,6 +203,64 @@ def is_slice_of(E, ret, contract):
     if U.shape[1] > U0.shape[1] or S.shape[0] > S0.shape[0] or V.shape[0] > V0.shape[0]:
         return False
     return E.And(E.eq_arrays(U, U0[:, : U.shape[1]]), E.eq_arrays(S, S0[: S.shape[0]]), E.eq_arrays(V, V0[: V.shape[0], :]))
+
+
+def frame(E, name, n):
+    """n x n orthogonal matrix (det +1) from Givens half-angle parameters; same arithmetic symbolically and in replay"""
+    nrot = n * (n - 1) // 2
+    t = E.real(name, (nrot,)) if nrot else []
+    Q = [[1 if i == j else 0 for j in range(n)] for i in range(n)]
+    idx = 0
+    for c in range(n - 1):
+        for r in range(c + 1, n):
+            tt = t[idx]
+            idx += 1
+            den = 1 + tt * tt
+            cs, sn = (1 - tt * tt) / den, (2 * tt) / den
+            rc = [cs * Q[c][j] - sn * Q[r][j] for j in range(n)]
+            rr = [sn * Q[c][j] + cs * Q[r][j] for j in range(n)]
+            Q[c], Q[r] = rc, rr
+    out = np.empty((n, n), dtype=object if E.symbolic else float)
+    for i in range(n):
+        for j in range(n):
+            out[i, j] = Q[j][i]
+    return out
+
+
+def assume_or_abort(E, conds):
+    """precondition stated on stub outputs after the code forked on them: paths that contradict it are outside the quantifier"""
+    E.assume(conds)
+    if E.symbolic:
+        import z3
+        from vt import sym
+
+        r, _ = E._decide(z3.BoolVal(False), (), timeout_ms=5000)
+        if r == "unsat":
+            raise sym.Abort()
+
+
+def contract_eigvals_desc(E, M):
+    """eigenvalues (descending) of the Gram matrix handed to tl.eigh -- symbolic: the stub's output on this path;
+    replay: LAPACK on M M^T.  Only the leading min(m, n) are compared (shared by both Gram matrices)."""
+    if E.symbolic:
+        from vt import sym
+
+        calls = [out for kind, args, out in sym.CTX.stub_calls if kind == "eigh"]
+        assert len(calls) == 1, len(calls)
+        return list(np.asarray(calls[0][0]))[::-1]
+    M = np.asarray(M, dtype=float)
+    return list(np.linalg.eigvalsh(M @ M.T))[::-1]
+
+
+def guarded(E, f, *a, **k):
+    """tensorly raising where the documentation promises a result is a failed obligation (reproduced by the replay), not a path exception"""
+    try:
+        r = f(*a, **k)
+    except Exception as e:  # noqa
+        E.prove("no_exception", False, detail=f"{type(e).__name__}: {str(e)[:200]}")
+        return None
+    E.prove("no_exception", True)
+    return r
 
 
 def call_warn(f, *a, **k):
@@ -222,17 +330,75 @@ def check_flip(E, U, S, V, U2, V2, ub, tag=""):
             E.prove(tag + f"flip_pair_common_sign[{j}]", E.Implies(pre, E.Or(E.And(same), E.And(opp))))
 
 
-def prune_against_contract(E, groups):
-    """fork decisions only see def/pre facts; a path whose condition contradicts the stub contract (e.g. 'this unit vector is
-    zero') is unreachable under the contract and is dropped.  Unknown keeps the path."""
-    if E.symbolic and groups:
-        import z3
-        from vt import sym
+def prune_zero_deciding(E, vecs, groups):
+    """fork decisions only see def/pre facts.  A path on which sign() of a contract unit vector came out 0 forces that vector to
+    be zero; the lemma 'a unit vector is not zero' (over the orthonormality facts) shows the path is unreachable under the
+    contract, and it is dropped.  This is the solver's answer to 'can sign(0)=0 annihilate a pair via truncated_svd': no."""
+    if not (E.symbolic and groups):
+        return
+    from vt import sym
 
-        r, _ = E._decide(z3.BoolVal(False), groups, timeout_ms=5000)
+    for j, x in enumerate(vecs):
+        allzero = E.And([E.eq(e, 0) for e in x])
+        if allzero is False:
+            continue
+        r, _ = E._decide(sym.bterm(allzero), (), timeout_ms=3000)
         if r == "unsat":
-            E.prove("path_contradicts_contract_pruned", True)
-            raise sym.Abort()
+            if E.prove(f"zero_deciding_vector_contradicts_contract[{j}]", nonzero(E, x), groups=groups):
+                raise sym.Abort()
+
+
+def check_symeig_shapes(E, ret, m, n, k):
+    U, S, V = ret
+    su, ss, sv = expected_shapes(m, n, k)
+    E.prove("shape_U", tuple(np.shape(U)) == su, detail=f"{np.shape(U)} vs {su}")
+    E.prove("shape_S", tuple(np.shape(S)) == ss, detail=f"{np.shape(S)} vs {ss}")
+    E.prove("shape_V", tuple(np.shape(V)) == sv, detail=f"{np.shape(V)} vs {sv}")
+    return (tuple(np.shape(U)), tuple(np.shape(S)), tuple(np.shape(V))) == (su, ss, sv)
+
+
+def prove_product(E, name, U, S, V, r, M, groups=()):
+    P = matprod(U, S, V, r)
+    for i in range(P.shape[0]):
+        for j in range(P.shape[1]):
+            E.prove(f"{name}[{i},{j}]", E.eq(P[i, j], M[i][j]), groups=groups)
+
+
+def check_symeig_direct(E, M, ret, m, n, k, rank, flip, og=()):
+    """symeig_svd against the bare eigh contract (free M).  Only what follows without the Gram factorisation facts is stated
+    here (the facts make nlsat give up); the derived factor and the non-square product are covered by the generated configs."""
+    if not check_symeig_shapes(E, ret, m, n, k):
+        return
+    U, S, V = ret
+    U, V = np.asarray(U), np.asarray(V)
+    r = np.shape(S)[0]
+    L = contract_eigvals_desc(E, M)
+    if rank == "full":
+        # nothing that is returned was clipped: the leading min(m, n) Gram eigenvalues are above eps
+        assume_or_abort(E, [E.ge(L[i], EPS) for i in range(min(m, n))])
+    E.prove("S_sorted_nonneg", sorted_nonneg(E, S))
+    for i in range(r):
+        E.prove(f"S_squared_is_clipped_gram_eigenvalue[{i}]", E.eq(S[i] * S[i], E.max(L[i], EPS)))
+    dec = []
+    if flip != "none":
+        dec = [list(U[:, j]) for j in range(U.shape[1])] if flip == "u" else [list(V[j, :]) for j in range(V.shape[0])]
+        for j, x in enumerate(dec):
+            E.prove(f"largest_entry_of_deciding_vector_positive[{j}]", E.Implies(nonzero(E, x), largest_entry_positive(E, x)))
+    # The factor holding the eigenvectors is orthonormal by contract whatever the rank -- unless sign resolution multiplied one of
+    # its vectors by sign(0) = 0 because the partner (derived) vector is zero.  'full': stated for non-zero deciding vectors (that a
+    # derived vector with eigenvalue >= eps is non-zero needs the Gram facts and is shown in the generated configs); 'any': unconditional.
+    eig_is_U = m > n
+    derived_decides = (flip == "u" and not eig_is_U) or (flip == "v" and eig_is_U)
+    # (with two or more deciding vectors the unconditional form yields counter-models on path combinations no real
+    # eigendecomposition realises -- replay rejects them; so 'any' states it unconditionally only for a single deciding vector)
+    pre = E.And([nonzero(E, x) for x in dec]) if (derived_decides and (rank == "full" or len(dec) > 1)) else True
+    G = gram_cols(U if eig_is_U else V.T)
+    nm = "U_orthonormal_columns(eigenvector_factor)" if eig_is_U else "V_orthonormal_rows(eigenvector_factor)"
+    for a in range(len(G)):
+        for b in range(a, len(G)):
+            E.prove(f"{nm}[{a},{b}]", E.Implies(pre, E.eq(G[a][b], 1 if a == b else 0)), groups=og)
+    if m == n and r == m and m <= 2 and rank == "full" and not og:
+        prove_product(E, "product_exact_when_nothing_clipped", U, S, V, r, M)
 
 
 # ------------------------------------------------------------------------------------ harness
@@ -240,13 +406,20 @@ def harness(E, cfg):
     from vt import backend
 
     part = cfg["part"]
+
+    def GW(f, *a, **k):
+        r = guarded(E, call_warn, f, *a, **k)
+        return r if r is not None else (None, [])
+
     E.fresh_solver = True  # identities between rational functions of the Givens parameters: one-shot nlsat queries
     if part == "truncated":
         m, n, k = cfg["m"], cfg["n"], cfg["k"]
         if E.symbolic:
             backend.configure(svd="givens")
         M = E.real("M", (m, n))
-        ret, w = call_warn(SV.truncated_svd, M, n_eigenvecs=k)
+        ret, w = GW(SV.truncated_svd, M, n_eigenvecs=k)
+        if ret is None:
+            return
         E.prove("clamp_warning_iff_above_max", (len(w) > 0) == (k is not None and k > max(m, n)))
         check_triple(E, M, ret, m, n, k)
     elif part == "interface":
@@ -258,9 +431,12 @@ def harness(E, cfg):
             backend.configure(svd="factor" if og else "givens")
         E.fresh_solver = not og
         M = E.real("M", (m, n))
-        ret, w = call_warn(SV.svd_interface, M, method="truncated_svd", n_eigenvecs=k, flip_sign=True, u_based_flip_sign=bool(ub))
+        ret, w = GW(SV.svd_interface, M, method="truncated_svd", n_eigenvecs=k, flip_sign=True, u_based_flip_sign=bool(ub))
+        if ret is None:
+            return
         E.prove("clamp_warning_iff_above_max", (len(w) > 0) == (k is not None and k > max(m, n)))
-        prune_against_contract(E, og)
+        c0 = contract_triples(E, M)[0]
+        prune_zero_deciding(E, [list(np.asarray(c0[0])[:, j]) for j in range(np.shape(ret[0])[1])] if ub else [list(np.asarray(c0[2])[j, :]) for j in range(np.shape(ret[2])[0])], og)
         # orthonormality AFTER sign resolution: a zero deciding vector (sign(0) = 0) would annihilate its partner and break it
         check_triple(E, M, ret, m, n, k, slice_check=False, orth_groups=og)
         U2, S2, V2 = ret
@@ -275,12 +451,247 @@ def harness(E, cfg):
             cands = [c for c in contract_triples(E, M) if np.shape(c[0])[1] >= np.shape(U2)[1] and np.shape(c[2])[0] >= np.shape(V2)[0]]
             E.prove("S_is_leading_contract_S", E.Or([E.eq_arrays(S2, np.asarray(c[1])[:r]) for c in cands]))
             E.prove("product_is_leading_contract_product", E.Or([E.eq_arrays(matprod(U2, S2, V2, r), matprod(c[0], c[1], c[2], r)) for c in cands]))
+    elif part == "symeig_direct":
+        m, n, k, rank = cfg["m"], cfg["n"], cfg["k"], cfg["rank"]
+        if E.symbolic:
+            backend.configure(eigh="givens")
+        M = E.real("M", (m, n))
+        flip = cfg["flip"]
+        og = ()
+        if flip != "none":
+            # sign resolution forks on the entries: eigenvectors as fresh variables + orthonormality facts (group eigh_orth) keep the
+            # branch conditions polynomial; without sign resolution the eigenvectors are orthonormal identically (Givens)
+            og = ("eigh_orth",)
+            if E.symbolic:
+                backend.configure(eigh="factor")
+        ret, w = GW(SV.svd_interface, M, method="symeig_svd", n_eigenvecs=k, flip_sign=flip != "none", u_based_flip_sign=flip == "u")
+        if ret is None:
+            return
+        E.prove("clamp_warning_iff_above_max", (len(w) > 0) == (k is not None and k > max(m, n)))
+        check_symeig_direct(E, M, ret, m, n, k, rank, flip, og)
+    elif part == "symeig_gen":
+        # input-from-output generation: M := U0 diag(sqrt(l)) V0^T from orthogonal U0 (m x m), V0 (n x n) and eigenvalues
+        # l_1 >= ... >= l_r (>= eps, or l_r = 0 in the rank-deficient variant); tl.eigh of either Gram matrix answers with the
+        # eigenpairs this construction determines.  Every M with Gram eigenvalues >= eps arises this way.
+        m, n, k, rank = cfg["m"], cfg["n"], cfg["k"], cfg["rank"]
+        r = min(m, n)
+        U0 = frame(E, "tU", m)
+        V0 = frame(E, "tV", n)
+        nl = r if rank == "full" else r - 1
+        l = list(E.real("l", (nl,), lo=EPS)) if nl else []
+        E.assume([E.ge(l[i], l[i + 1]) for i in range(nl - 1)])
+        l = l + [0] * (r - nl)
+        sv = [E.sqrt(x) if not isinstance(x, int) else 0 for x in l]
+        M = np.empty((m, n), dtype=object if E.symbolic else float)
+        for i in range(m):
+            for j in range(n):
+                M[i, j] = sum((U0[i, a] * sv[a] * V0[j, a] for a in range(r)), 0)
+        if E.symbolic:
+            from vt.sym import sarr
+
+            M = sarr(M)
+            backend.configure()
+            for G, Q, N in ((np.dot(M, np.transpose(M)), U0, m), (np.dot(np.transpose(M), M), V0, n)):
+                Lasc = sarr(np.array(([0] * (N - r) + l[::-1]), dtype=object))
+                backend.POLICY.tables["eigh"].append(((sarr(G),), (Lasc, sarr(Q[:, ::-1].copy()))))
+        ret, w = GW(SV.svd_interface, M, method="symeig_svd", n_eigenvecs=k, flip_sign=False)
+        if ret is None:
+            return
+        if not check_symeig_shapes(E, ret, m, n, k):
+            return
+        U, S, V = ret
+        rr = np.shape(S)[0]
+        E.prove("S_sorted_nonneg", sorted_nonneg(E, S))
+        for i in range(rr):
+            E.prove(f"S_is_leading_singular_value_or_clip_floor[{i}]", E.eq(S[i], E.max(sv[i], 2.0**-26)))
+        # role in the name: the factor that holds the eigenvectors vs the one derived as M^T Q / S (or M Q / S)
+        ru, rv = ("eigenvector_factor", "derived_factor") if m > n else ("derived_factor", "eigenvector_factor")
+        prove_orthonormal_cols(E, f"U_orthonormal_columns({ru})", U)
+        prove_orthonormal_cols(E, f"V_orthonormal_rows({rv})", np.asarray(V).T)
+        if rr == r:
+            prove_product(E, "product_exact", U, S, V, r, M)
+    elif part == "nn":
+        # input-from-output generation: M := U0[:, :r] diag(s) V0[:, :r]^T with U0, V0 orthogonal (Givens parameters and a sign for
+        # the last column: both determinants), s sorted >= 0; tl.svd(M) answers with that triple.  Every M arises this way.
+        m, n, k, variant, inp = cfg["m"], cfg["n"], cfg["k"], cfg["variant"], cfg["inp"]
+        r = min(m, n)
+        U0, V0 = frame(E, "tU", m), frame(E, "tV", n)
+        sg = E.real("sg", (2,), lo=-1, hi=1)
+        E.assume([E.eq(sg[0] * sg[0], 1), E.eq(sg[1] * sg[1], 1)])
+        U0[:, m - 1] = U0[:, m - 1] * sg[0]
+        V0[:, n - 1] = V0[:, n - 1] * sg[1]
+        sv = E.real("s", (r,), nn=True)
+        E.assume([E.ge(sv[i], sv[i + 1]) for i in range(r - 1)])
+        M = np.empty((m, n), dtype=object if E.symbolic else float)
+        for i in range(m):
+            for j in range(n):
+                M[i, j] = sum((U0[i, a] * sv[a] * V0[j, a] for a in range(r)), 0)
+        if E.symbolic:
+            from vt import sym
+            from vt.sym import sarr
+
+            M = sarr(M)
+            Mgen, Ug, Sg, Vg = M, sarr(U0), sarr(sv), sarr(V0.T)
+
+            def gen_svd(A, full_matrices):
+                assert backend._same_array(A, Mgen), "unexpected SVD argument"
+                return (Ug.copy(), Sg.copy(), Vg.copy()) if full_matrices else (Ug[:, :r].copy(), Sg.copy(), Vg[:r, :].copy())
+
+            backend.configure(svd=gen_svd)
+        if inp == "mean_nonneg":
+            E.assume(E.ge(sum(M.ravel()), 0))
+        nd0 = len(sym.CTX.dens) if E.symbolic else 0
+        ret = guarded(E, SV.svd_interface, M, n_eigenvecs=k, non_negative=True if variant == "True" else variant)
+        if ret is None:
+            return
+        W, S, H = ret
+        su, ss, svs = expected_shapes(m, n, k)
+        E.prove("shapes", (tuple(np.shape(W)), tuple(np.shape(S)), tuple(np.shape(H))) == (su, ss, svs), detail=f"{np.shape(W)} {np.shape(S)} {np.shape(H)}")
+        # finite: no 0/0 -- stated WITHOUT the engine's definedness assumption, for distinct positive singular values (then the SVD
+        # is unique up to the signs svd_flip fixes, so a contract-level counterexample is also one for LAPACK)
+        generic = E.And([E.gt_strict(sv[i], sv[i + 1]) for i in range(r - 1)] + [E.gt_strict(sv[r - 1], 0)])
+        if E.symbolic:
+            saved = sym.CTX.assume_defined
+            sym.CTX.assume_defined = False
+            try:
+                E.prove("finite", E.Implies(generic, E.And([sym.mkb(d != 0) for d in sym.CTX.dens[nd0:]])))
+            finally:
+                sym.CTX.assume_defined = saved
+        else:
+            E.prove("finite", E.Implies(generic, bool(np.isfinite(np.asarray(W, dtype=float)).all() and np.isfinite(np.asarray(H, dtype=float)).all())))
+        # entrywise non-negativity, exact also in replay (NNDSVD builds its entries from abs / clip / max: no rounding excuse);
+        # symbolically under 'divisions defined', a NaN fails it in replay
+        nonneg = (lambda e: E.ge(e, 0)) if E.symbolic else (lambda e: bool(float(e) >= 0))
+        E.prove("W_nonneg", [nonneg(e) for e in np.asarray(W).ravel()])
+        E.prove("H_nonneg", [nonneg(e) for e in np.asarray(H).ravel()])
+        if E.symbolic:
+            import z3
+
+            sym.CTX.assume_defined = False  # vacuity of the path without the definedness assumption (paths that divide by zero are in scope here)
+            if E._decide(z3.BoolVal(False), (), timeout_ms=10000)[0] == "unsat":
+                raise sym.Abort()  # the fork that led here was only 'unknown', not feasible
+            E.vacuity(())
+    elif part == "dispatch_names":
+        M = E.real("M", (2, 2))
+        calls = []
+
+        def rec(name):
+            def f(matrix, n_eigenvecs=None, **kw):
+                calls.append((name, matrix is M, n_eigenvecs, dict(kw)))
+                return np.eye(2, dtype=object if E.symbolic else float), np.ones(2, dtype=object if E.symbolic else float), np.eye(2, dtype=object if E.symbolic else float)
+
+            return f
+
+        names = ["truncated_svd", "symeig_svd", "randomized_svd"]
+        saved = {nm: getattr(SV, nm) for nm in names}
+        try:
+            for nm in names:
+                setattr(SV, nm, rec(nm))
+            for nm in names:
+                del calls[:]
+                SV.svd_interface(M, method=nm, n_eigenvecs=1, flip_sign=False, some_option=7)
+                E.prove(f"routes_to/{nm}", calls == [(nm, True, 1, {"some_option": 7})], detail=str(calls))
+            del calls[:]
+            SV.svd_interface(M, n_eigenvecs=2, flip_sign=False)
+            E.prove("default_method_is_truncated_svd", calls == [("truncated_svd", True, 2, {})], detail=str(calls))
+        finally:
+            for nm in names:
+                setattr(SV, nm, saved[nm])
+        E.prove("SVD_FUNS_lists_the_names", list(SV.SVD_FUNS) == names)
+        try:
+            SV.svd_interface(M, method="no_such_svd")
+            E.prove("unknown_name_raises_ValueError", False)
+        except ValueError:
+            E.prove("unknown_name_raises_ValueError", True)
+    elif part == "dispatch_callable":
+        m, n, ku, kv, ub = cfg["m"], cfg["n"], cfg["ku"], cfg["kv"], cfg["ub"]
+        M = E.real("M", (m, n))
+        U = E.real("U", (m, ku))
+        V = E.real("V", (kv, n))
+        S = E.real("S", (min(ku, kv),))
+        calls = []
+
+        def method(matrix, n_eigenvecs=None, **kw):
+            calls.append((matrix is M, n_eigenvecs, dict(kw)))
+            return U.copy(), S.copy(), V.copy()
+
+        r1 = guarded(E, SV.svd_interface, M, method=method, n_eigenvecs=ku, flip_sign=False, opt="x")
+        if r1 is None:
+            return
+        U1, S1, V1 = r1
+        E.prove("callable_called_once_with_matrix_rank_kwargs", calls == [(True, ku, {"opt": "x"})], detail=str(calls))
+        E.prove("flip_sign_False_returns_the_method_output", E.And(E.eq_arrays(U1, U), E.eq_arrays(S1, S), E.eq_arrays(V1, V)))
+        r2 = guarded(E, SV.svd_interface, M, method=method, n_eigenvecs=ku, flip_sign=True, u_based_flip_sign=bool(ub))
+        if r2 is None:
+            return
+        U2, S2, V2 = r2
+        E.prove("S_untouched", E.eq_arrays(S2, S))
+        check_flip(E, U, S, V, U2, V2, ub)
+    elif part == "mask":
+        m, n, k, it, pat = cfg["m"], cfg["n"], cfg["k"], cfg["it"], cfg["pat"]
+        if E.symbolic:
+            backend.configure(svd="factor")
+        M = E.real("M", (m, n))
+        mask = np.ones((m, n))
+        if pat == "one_missing":
+            mask[0, n - 1] = 0
+        elif pat == "row_missing":
+            mask[m - 1, :] = 0
+        calls = []
+
+        def method(matrix, n_eigenvecs=None, **kw):
+            out = SV.truncated_svd(matrix, n_eigenvecs=n_eigenvecs, **kw)
+            calls.append((matrix, n_eigenvecs, out))
+            return out
+
+        ret, w = GW(SV.svd_interface, M, method=method, n_eigenvecs=k, mask=mask if E.symbolic else mask.astype(float), n_iter_mask_imputation=it, flip_sign=False)
+        if ret is None:
+            return
+        U, S, V = ret
+        su, ss, sv = expected_shapes(m, n, k)
+        E.prove("shapes", (tuple(np.shape(U)), tuple(np.shape(S)), tuple(np.shape(V))) == (su, ss, sv), detail=f"{np.shape(U)} {np.shape(S)} {np.shape(V)}")
+        sweeps = it if k is not None else 0  # documented: imputation needs n_eigenvecs
+        E.prove("number_of_factorisations", len(calls) == 1 + sweeps, detail=str(len(calls)))
+        E.prove("every_factorisation_gets_the_requested_rank", all(c[1] == k for c in calls))
+        if len(calls) == 1 + sweeps:
+            E.prove("first_factorisation_is_of_the_input", calls[0][0] is M or E.eq_arrays(calls[0][0], M))
+            if sweeps:
+                X1 = np.asarray(calls[1][0])
+                U0, S0, V0 = calls[0][2]
+                low = matprod(U0, S0, V0, np.shape(S0)[0])
+                E.prove("imputed_matrix_shape", X1.shape == (m, n))
+                for i in range(m):
+                    for j in range(n):
+                        if mask[i, j]:
+                            E.prove(f"observed_entry_kept[{i},{j}]", E.eq(X1[i, j], M[i, j]))
+                        else:
+                            E.prove(f"missing_entry_is_low_rank_estimate[{i},{j}]", E.eq(X1[i, j], low[i, j]))
+            last = calls[-1][2]
+            E.prove("result_is_last_factorisation", E.And(E.eq_arrays(U, last[0]), E.eq_arrays(S, last[1]), E.eq_arrays(V, last[2])))
+    elif part == "randomized":
+        m, n, k, os_, it = cfg["m"], cfg["n"], cfg["k"], cfg["os"], cfg["it"]
+        if E.symbolic:
+            backend.configure(svd="factor", qr="factor")
+        M = E.real("M", (m, n))
+        ret, w = GW(SV.svd_interface, M, method="randomized_svd", n_eigenvecs=k, n_oversamples=os_, n_iter=it, random_state=0, flip_sign=False)
+        if ret is None:
+            return
+        U, S, V = ret
+        su, ss, sv = expected_shapes(m, n, k)
+        E.prove("shape_U", tuple(np.shape(U)) == su, detail=f"{np.shape(U)} vs {su}")
+        E.prove("shape_S", tuple(np.shape(S)) == ss, detail=f"{np.shape(S)} vs {ss}")
+        E.prove("shape_V", tuple(np.shape(V)) == sv, detail=f"{np.shape(V)} vs {sv}")
+        E.prove("clamp_warning_iff_above_max", (sum("max(matrix.shape)=%d" % max(m, n) in str(x.message) for x in w) > 0) == (k is not None and k > max(m, n)), detail=str([str(x.message) for x in w]))
+        E.prove("S_sorted_nonneg", sorted_nonneg(E, S))
     elif part == "flip":
         m, n, ku, kv, ub = cfg["m"], cfg["n"], cfg["ku"], cfg["kv"], cfg["ub"]
         U = E.real("U", (m, ku))
         V = E.real("V", (kv, n))
         S = E.real("S", (min(ku, kv),))
-        U2, V2 = SV.svd_flip(U.copy(), V.copy(), u_based_decision=bool(ub))
+        r2 = guarded(E, SV.svd_flip, U.copy(), V.copy(), u_based_decision=bool(ub))
+        if r2 is None:
+            return
+        U2, V2 = r2
         check_flip(E, U, S, V, U2, V2, ub)
     else:
         raise KeyError(part)
